@@ -143,13 +143,22 @@ def gen_cases(tier, seed):
             yield cfg, "normalize", [s, False]
             yield cfg, "normalize", [s, True]
             yield cfg, "join", [s]
-        for s in small:
-            for t in small:
+        small2 = list(strings_upto(2))
+        # all pairs up to length 2 for every binary helper; in the thorough tier additionally all pairs up to length 3 for the
+        # two decision helpers on the first two configurations (keeps the run within minutes)
+        for s in small2:
+            for t in small2:
                 yield cfg, "join", [s, t]
                 yield cfg, "issub", [s, t, False]
                 yield cfg, "issub", [s, t, True]
                 yield cfg, "match", [s, t, False]
                 yield cfg, "match", [s, t, True]
+        if bi_len > 2 and cfg in CONFIGS[:2]:
+            for s in small:
+                for t in small:
+                    if len(s) > 2 or len(t) > 2:
+                        yield cfg, "issub", [s, t, False]
+                        yield cfg, "join", [s, t]
         pool3 = [s for s in small if len(s) <= (1 if tier == "quick" else 2)]
         for s in pool3:
             for t in pool3:
